@@ -2,7 +2,7 @@ package nexus
 
 type Token int64
 
-var eof = rune(0)
+var eof = rune(-1) // never returned by ReadRune, so a NUL character in the input is ordinary data
 
 const (
 	ILLEGAL Token = iota
